@@ -41,7 +41,7 @@ def run(R):
 
     def obs(ev, **kw):
         if ev == "call" and ctx.quiet == 0 and kw["callee"].name.startswith(f"<{FELT} as {CF}>::"):
-            calls.append((kw["frame"].inst.name, kw["callee"].name.split("::")[-1], kw["args"], kw["st"]))
+            calls.append((kw["frame"].inst.name, kw["callee"].name.split("::")[-1], kw["args"], kw["st"].copy()))
     ctx.observers.append(obs)
     ctx.no_inline = lambda inst: inst.name.startswith(f"<{FELT} as {CF}>::")
 
